@@ -578,7 +578,6 @@ package martian
 //@   modifies ctx.mu.rheld
 //@   ensures result == ctx.apiRequest && ctxIdle(ctx)
 
-
 // skip-logging mark of a request's context (C15), tied to NewContext / SkippingLogging by definition
 //@ specfunc skipMarked(req *http.Request) bool
 //@ pred linked(req *http.Request) = tableIdle() && has(ctxs, req) && ctxs[req] != nil && ctxIdle(ctxs[req]) && len(ctxs[req].id) >= 8
